@@ -90,6 +90,7 @@ class Ctx:
         self.extra = {}
         self.t0 = time.time()
         self._scratch_root = None
+        self._case_dirs = []
         self._case = None
         self._case_index = 0
         self.deadline = None
@@ -155,10 +156,19 @@ class Ctx:
             )
 
     # -- scratch -----------------------------------------------------------
-    def scratch(self, tag="c"):
+    def scratch(self, tag="c", keep=False):
+        """A fresh directory. Removed after the current case unless keep=True (then at worker exit)."""
         if self._scratch_root is None:
             self._scratch_root = tempfile.mkdtemp(prefix=f"vf_{self.prop}_", dir=SCRATCH_BASE)
-        return tempfile.mkdtemp(prefix=tag + "_", dir=self._scratch_root)
+        d = tempfile.mkdtemp(prefix=tag + "_", dir=self._scratch_root)
+        if not keep:
+            self._case_dirs.append(d)
+        return d
+
+    def end_case(self):
+        for d in self._case_dirs:
+            shutil.rmtree(d, ignore_errors=True)
+        self._case_dirs = []
 
     def cleanup(self):
         if self._scratch_root is not None:
@@ -198,6 +208,7 @@ def run_worker(mod, ctx, time_cap):
                 if len(ctx.extra["harness_errors"]) > 5:
                     ctx.extra["harness_errors"].pop()
             ctx._case = None
+            ctx.end_case()
             if ctx.out_of_time():
                 ctx.count("time_capped")
                 break
